@@ -147,10 +147,64 @@ PROPS["C19"] = {
   "assumptions": ["the actor calls on_tick at least once per HEARTBEAT_IVL"],
 }
 
+KANI["vk_plain_server_accepts_only_configured_credentials"] = {
+  "module": "core/src/security/plain.rs", "file": "kani/plain.rs", "props": ["C06"], "kind": "bounded",
+  "bound": "expected credentials of 0..=1 byte each, token of at most 10 bytes, all symbolic", "timeout": 1500,
+  "what": "PlainMechanism (server): a token is accepted only if it is a well-formed HELLO carrying exactly the configured credentials; a rejected peer cannot recover",
+  "pairs_fn": ["PlainMechanism::process_token"],
+}
+PROPS["C06"]["units"] = ["engine", "plain"]
+PROPS["C06"]["kani_fallback"] = ["vk_plain_server_accepts_only_configured_credentials"]
+PROPS["C06"]["kani_thorough"] = ["vk_plain_server_accepts_only_configured_credentials"]
+PROPS["C06"]["claim"] += (" For PLAIN the mechanism side of that contract is proved too (unit plain): the server reaches ServerSendWelcome/Ready only through a well-formed HELLO whose username AND password equal the configured ones "
+                          "(no configured credentials => every HELLO is rejected), an error is terminal, Ready on the server is reachable only from ServerSendWelcome.")
+PROPS["C06"]["level_note"] = ("Relative to the abstract Mechanism contract for CURVE/Noise (cryptography: not applicable) and to negotiate_security_mechanism's contract (assumed). "
+                              "When the Verus route cannot decide after an edit (rewrite anchor lost / construct outside the subset), the bounded Kani harness on the real PLAIN mechanism runs as fallback (bounded, never counted as proved).")
+PROPS["C07"]["units"] = ["dec", "framer", "engine", "framebatch", "command", "plain"]
+
+PROPS["C18"]["claim"] = ("Record layer only, for ANY cipher (encrypt/decrypt abstract): writers return either an error or a record whose 16-bit big-endian length prefix equals the number of ciphertext bytes that follow; "
+                         "the reader (LengthPrefixedFramer::try_read_msg) cuts records exactly at their announced length, consumes them whole and in order, hands each to the cipher exactly once, and leaves an incomplete record untouched "
+                         "(so the outcome does not depend on read boundaries). Secrecy, tamper detection and nonce freshness are cryptographic and not decided here.")
+
+PROPS["C13"] = {
+  "units": ["lb", "route"],
+  "kani_quick": [], "kani_thorough": [],
+  "claim": "Proved for every history of add/remove/get on the verbatim LoadBalancer (representation invariant: no duplicate peers, cursor in range): get_next_connection serves exactly the peer under the cursor and advances it round-robin; "
+           "a peer joins once at the end; removing a peer keeps the order of the others and the peer that would have been served next is still next (its successor if it was the removed one). "
+           "try_route_sync hands the batch to at most one peer, skips full peers, tries every peer of the rotation exactly once before giving up (cursor back at the start), and returns the very batch on refusal.",
+  "level_note": "Lock model (rewrite R6): each balancer method is one critical section under its mutex and is verified as a &mut operation on the protected state; the sweep result is stated for a peer set that does not change during the sweep. "
+                "Starvation freedom over a run, wait_for_connection's check-then-wait window, route_message's blocking path and the DEALER pending queue are schedule properties: not covered.",
+  "technique": "contract-based deductive verification (Verus; abstract view + representation invariant; vstd modular-arithmetic lemmas)",
+  "trusted_base": COMMON_TRUSTED + ["R8 helpers for iterator adapters any()/position() over the peer list (contract = std semantics)", "ISocketConnection: a refused batch is returned unchanged (assumed for trait objects)"],
+  "assumptions": ["each LoadBalancer method holds its mutex from first to last statement (checked by reading: one lock() per method)"],
+}
+PROPS["C17"] = {
+  "units": ["backoff"],
+  "kani_quick": [], "kani_thorough": [],
+  "claim": "Back-off arithmetic only, proved for ALL (attempts: u32, RECONNECT_IVL, RECONNECT_IVL_MAX) on the verbatim ReconnectState: the delay equals min(base * 2^min(attempts,31) saturating, max if set); "
+           "the first delay is RECONNECT_IVL, consecutive delays never shrink and at most double (lemma_backoff_geometric), never exceed RECONNECT_IVL_MAX when set; attempts count up saturating, success resets; "
+           "no overflow or panic for option values the parsers can produce (parse_reconnect_ivl{,_max}_option proved to yield at most i32::MAX ms).",
+  "level_note": "Failure isolation across connections and 'traffic resumes once the peer is reachable' are fault-sequence/system properties: not covered. The call sites in async event handlers pass option values or small defaults (read, not under contract).",
+  "technique": "contract-based deductive verification (Verus; durations as nanoseconds, nonlinear-arithmetic lemmas)",
+  "trusted_base": ["prelude/time.rs: Duration/Instant as nanoseconds; saturating_mul clamps at Duration::MAX; Instant + Duration panics beyond the platform range (precondition)", "ASSUMPTION: the monotonic clock reads below half of its representable range"],
+  "assumptions": ["machine arithmetic modelled exactly"],
+}
+PROPS["C05"] = {
+  "units": ["engine", "compat"],
+  "kani_quick": [], "kani_thorough": [],
+  "claim": "Partial: (1) staged greeting on the verbatim process_greeting: our revision byte is sent as soon as the peer's 10-byte signature is seen and at most once, ZMTP/3 is committed as soon as the peer's revision byte is seen "
+           "(no stage waits for more than the peer's previous stage: no mutual wait); (2) the inproc compatibility table equals the ZeroMQ pairing table outside a recorded gap of six pairs, the pairing table is symmetric; "
+           "(3) on the ZMTP/2.0 path HandshakeComplete is emitted only after validate_v2_compatibility returned Ok. Two known findings are reported (inproc gap, ZMTP/3 never validates Socket-Type).",
+  "level_note": "Convergence of two real endpoints over real sockets, the security phase for CURVE/Noise and 'both end in failure without waiting forever' are schedule/liveness properties: not covered. validate_v2_compatibility itself matches on strings (outside Verus); its table is checked by the Kani harness vk_v2_compat_table when tractable.",
+  "technique": "contract-based deductive verification (Verus) with two recorded known findings",
+  "trusted_base": ENGINE_TRUSTED,
+  "assumptions": ["links are reliable FIFO byte streams"],
+}
+
 NOT_BUILT = "check not built yet in this revision (planned, see DESIGN.md section 9)"
 NOT_APPLICABLE = {
- "C05": NOT_BUILT, 
-  "C09": NOT_BUILT, "C10": NOT_BUILT, "C11": NOT_BUILT, "C13": NOT_BUILT, "C14": NOT_BUILT, "C17": NOT_BUILT, 
+ 
+  "C09": NOT_BUILT, "C10": NOT_BUILT, "C11": NOT_BUILT, "C14": NOT_BUILT, 
   "C08": "lost wake-ups are an invariant over interleavings of individual atomic/channel steps plus a liveness claim; Kani has no threads and Verus would need its own atomic/permission types, i.e. a re-implementation (a model), not the code that runs (DESIGN.md section 6)",
   "C12": "SubscriptionTrie is Arc<RwLock<TrieNode>> nodes with HashMap children and an AtomicUsize: no abstract view without rewriting it (Verus), parking_lot crashes kani-compiler 0.68; non-blocking fan-out is a schedule property",
   "C15": "the deciding state (bytes framed but unwritten in another actor, kernel buffers, the close deadline) spans actors and the OS; no contract over one function expresses 'accepted messages are transmitted within LINGER'",
